@@ -106,6 +106,15 @@ pub fn grid_fact(ev: Ev) -> Vec<String> {
             }
         }
     }
+    // next to the positive integers too (an argument "snapped" to the whole number it is close to): n +- 10^-j
+    if ev != Ev::I64 {
+        for n in [2i32, 3, 5, 10, 20, 50, 100, 149] {
+            for j in [3usize, 6, 7, 8, 9, 10, 11, 12, 13] {
+                g.push(format!("{}.{}1", n, "0".repeat(j - 1)));
+                g.push(format!("{}.{}", n - 1, "9".repeat(j)));
+            }
+        }
+    }
     // … and at decimal distances 10^-j (what a Decimal holds exactly and a double does not): the reflection formula
     // magnifies the error of its constant pi by |x| / distance
     if ev == Ev::Dec {
@@ -147,7 +156,7 @@ fn grid2_base(ev: Ev) -> Vec<String> {
         return g;
     }
     ["0", "0.5", "1", "1.5", "2", "2.5", "3", "4", "5", "7", "8", "10", "0.125", "0.25", "0.1", "100", "1000", "0.001", "(-0.5)", "(-1)", "(-2)", "(-2.5)", "(-3)", "(-8)",
-        "(-0.125)", "(-10)", "1000000", "27", "16", "9"]
+        "(-0.125)", "(-10)", "1000000", "27", "16", "9", "0.0000000000000123", "0.00000001234567", "(-0.25)"]
         .iter()
         .map(|s| s.to_string())
         .collect()
@@ -234,6 +243,7 @@ pub fn c10(cx: &RunCtx) {
     // every name at the branch points, poles and range limits of any function (literal, constant-expression
     // and placeholder spellings of the same argument)
     crate::fam::critical_all(cx, &[Kind::Value, Kind::WellFormedErr, Kind::MustErrOk]);
+    crate::fam::special_integers_all(cx, &[Kind::Value, Kind::WellFormedErr, Kind::MustErrOk]);
 }
 
 // ---------------------------------------------------------------- C11
